@@ -222,7 +222,7 @@ SPdu(s, C, p) ==
                                  !.st = "Fin", !.cond = p.cond]
             IN [s |-> s1, out |-> <<>>, ind |-> <<SFinishedInd(s1, p.resp)>>, res |-> "ok"]
        [] p.k = "NAK" -> ok([s0 EXCEPT !.naks = SDedup(s0.naks \o SFlatten(p.reqs, C))])
-       [] p.k = "ACK" -> IF p.of = "EOF" THEN ok([s0 EXCEPT !.tAck = CPause(s0.tAck, SToAck(C), C.limit), !.eof.flag = FALSE])
+       [] p.k = "ACK" -> IF p.of = "EOF" THEN ok([s0 EXCEPT !.tAck = CNew, !.eof.flag = FALSE])   \* reset + pause
                          ELSE unexpected
        [] p.k = "KeepAlive" -> ok([s0 EXCEPT !.rfs = p.progress])
        [] OTHER -> unexpected
@@ -239,7 +239,8 @@ SCmd(s, C, c) ==
     [] c = "Suspend" -> LET x == SSuspend(s, C) IN [s |-> x.s, out |-> <<>>, ind |-> x.ind, res |-> "ok"]
     [] c = "Resume" ->
          LET s1 == IF s.st \in {"Eof", "Canc"}
-                   THEN [s EXCEPT !.tAck = CRestart(s.tAck, SToAck(C), C.limit),
+                   THEN [s EXCEPT !.eof.flag = IF COccurred(s.tAck, SToAck(C), C.limit) /\ s.eof.set THEN TRUE ELSE s.eof.flag,
+                                  !.tAck = CRestart(s.tAck, SToAck(C), C.limit),
                                   !.tInact = CRestart(s.tInact, SToInact(C), C.limit)]
                    ELSE s
          IN [s |-> [s1 EXCEPT !.txs = "Active"], out |-> <<>>,
